@@ -29,6 +29,8 @@ func main() {
 	case "replay":
 		k := seqd.Replay(w, *in, *stride, int(*seed))
 		fmt.Printf("histories=%d ", k)
+	case "qualcalls":
+		seqd.QualCalls(w, vt.Rand(*seed, "seqqual"), *n)
 	case "multiext":
 		seqd.MultiExt(w, vt.Rand(*seed, "seqmultiext"), *n, *small)
 	case "calls":
